@@ -168,10 +168,7 @@ def conv_general_dilated(lhs, rhs, window_strides, padding, lhs_dilation=None, r
                 if arr._num(term) and term == 0:
                     continue
                 if not valid(cond):
-                    from .bigsum import SumExpr
-                    if isinstance(term, SumExpr):
-                        raise OutOfReach("conv: conditional BigSum")
-                    term = z3.If(cond, arr.t_z3(term, True), z3.RealVal(0))
+                    term = arr.t_cond(cond, term)
                 tot = arr.t_bin("add", tot, term)
             return tot
 
